@@ -436,7 +436,7 @@ def _exchange_body(m: dict[str, Any], tok: dict[bytes, bytes]) -> bytes:
     return httpdrv.ipc_bytes(batch, dict(tok))
 
 
-def main(tier: str, seed: int) -> int:
+def _run(tier: str, seed: int) -> Check:
     chk = Check(PID, tier, seed, level=CATEGORY, rule=RULE)
     chk.require(
         "requests",
@@ -465,12 +465,32 @@ def main(tier: str, seed: int) -> int:
                         configs.append({"variant": variant, "prefix": prefix, "pkce": pkce, "health": health, "sticky": sticky, "rejection": rej})
     rng.shuffle(configs)
     jobs = [
-        {"tier": tier, "seed": seed * 1000 + i, "configs": part, "random_per_config": 150 if tier == "quick" else 600}
-        for i, part in enumerate(shard.split(configs, shard.ncpu() * (1 if tier == "quick" else 3)))
+        {"tier": tier, "seed": seed * 1000 + i, "configs": part, "random_per_config": 150 if tier == "quick" else 2500}
+        for i, part in enumerate(shard.split(configs, 12 if tier == "quick" else 36))  # fixed shard count: results do not depend on the worker count
     ]
     for res in shard.pmap("checks.c20", "run_shard", jobs, timeout=600 if tier == "quick" else 2400):
         chk.merge(res)
     chk.extra["configs"] = len(configs)
     chk.exhaustive["verb x path grid per config"] = True
     chk.exhaustive["random header/path mutations"] = False
-    return chk.finish()
+    return chk
+
+
+def main(tier: str, seed: int) -> int:
+    return _run(tier, seed).finish()
+
+
+def replay(path: str) -> int:
+    """Re-execute the run (tier, seed) recorded in a replay file; the recorded mechanism key must fire again."""
+    import json
+
+    with open(path) as fh:
+        rec = json.load(fh)
+    chk = _run(rec["tier"], int(rec["seed"]))
+    v = chk.violations.get(rec["key"])
+    if v is not None:
+        print(f"VIOLATION property={PID} replay={path}")
+        print(f"  key={rec['key']}: reproduced ({v['count']}x): {v['what']}")
+        return 1
+    print(f"INCONCLUSIVE property={PID} reason=replay of {rec['key']} did not reproduce (other keys: {sorted(chk.violations)})")
+    return 2
